@@ -197,7 +197,7 @@ def _parse_tlc_line(res, line):
 
 
 def tlc(module, cfg, workers=8, simulate=None, depth=None, extra=(), env=None, timeout=1800,
-        on_json=None, heap="8g", coverage=False, tlc_seed=None, deadlock=True, tool_opts=None):
+        on_json=None, on_chunk=None, heap="8g", coverage=False, tlc_seed=None, deadlock=True, tool_opts=None):
     """Run TLC on spec/<module>.tla with spec/<cfg>. Lines that are TLA+ strings holding JSON
     (emitted by PrintT(ToJson(..))) are passed, still encoded, to on_json(line)."""
     res = TlcResult()
@@ -222,18 +222,72 @@ def tlc(module, cfg, workers=8, simulate=None, depth=None, extra=(), env=None, t
     if env:
         e.update(env)
     t0 = time.time()
-    p = subprocess.Popen(cmd, cwd=SPEC, env=e, stdout=subprocess.PIPE, stderr=subprocess.STDOUT,
-                         text=True, errors="replace", bufsize=1 << 20)
+    p = subprocess.Popen(cmd, cwd=SPEC, env=e, stdout=subprocess.PIPE, stderr=subprocess.STDOUT, bufsize=0)
     timer = threading.Timer(timeout, p.kill)
     timer.start()
-    try:
-        for line in p.stdout:
-            if line.startswith('"'):
-                if on_json:
-                    on_json(line)
+    fd = p.stdout.fileno()
+    rest = b""
+
+    def handle(block):
+        # block: bytes made of whole lines. JSON lines (TLA+ strings) start with '"'.
+        if block.startswith(b'"') and _all_json(block):
+            if on_chunk:
+                on_chunk(block)
+            elif on_json:
+                for ln in block.decode("utf-8", "replace").splitlines(True):
+                    on_json(ln)
+            return
+        lines = block.split(b"\n")
+        if lines and lines[-1] == b"":
+            lines.pop()
+        buf = []
+        for ln in lines:
+            if ln.startswith(b'"'):
+                buf.append(ln)
             else:
-                res.text.append(line.rstrip("\n"))
-                _parse_tlc_line(res, line)
+                if buf:
+                    _flush_json(buf)
+                    buf = []
+                t = ln.decode("utf-8", "replace")
+                if len(res.text) < 200000:
+                    res.text.append(t)
+                _parse_tlc_line(res, t + "\n")
+        if buf:
+            _flush_json(buf)
+
+    def _all_json(block):
+        # every line starts with '"'  <=>  no occurrence of newline followed by a non-quote
+        i = 0
+        n = len(block)
+        while True:
+            j = block.find(b"\n", i)
+            if j < 0 or j + 1 >= n:
+                return True
+            if block[j + 1] != 0x22:
+                return False
+            i = j + 1
+
+    def _flush_json(buf):
+        if on_chunk:
+            on_chunk(b"\n".join(buf) + b"\n")
+        elif on_json:
+            for ln in buf:
+                on_json(ln.decode("utf-8", "replace") + "\n")
+
+    try:
+        while True:
+            chunk = os.read(fd, 1 << 20)
+            if not chunk:
+                break
+            data = rest + chunk
+            k = data.rfind(b"\n")
+            if k < 0:
+                rest = data
+                continue
+            rest = data[k + 1:]
+            handle(data[:k + 1])
+        if rest:
+            handle(rest + b"\n")
         p.wait()
     finally:
         timer.cancel()
@@ -262,17 +316,19 @@ def decode_tlc_json(line):
 
 
 class Piper:
-    """Feeds TLC-emitted JSON lines round-robin to nproc harness processes; collects their stdout lines."""
+    """Feeds TLC-emitted JSON lines (blocks of whole lines, bytes) round-robin to nproc harness processes;
+    collects their stdout lines."""
 
     def __init__(self, cmd, env=None, timeout=3600, nproc=1):
         e = dict(os.environ)
         if env:
             e.update(env)
         self.ps = [subprocess.Popen(cmd, stdin=subprocess.PIPE, stdout=subprocess.PIPE, stderr=subprocess.PIPE,
-                                    text=True, errors="replace", env=e, bufsize=1 << 20) for _ in range(max(1, nproc))]
+                                    env=e, bufsize=0) for _ in range(max(1, nproc))]
         self.out = []
         self.err = []
         self.n = 0
+        self.k = 0
         self.samples = []
         self._lock = threading.Lock()
         self._ts = []
@@ -281,47 +337,80 @@ class Piper:
                 t = threading.Thread(target=fn, args=(stream,), daemon=True)
                 t.start()
                 self._ts.append(t)
+        import queue
+        self._qs = [queue.Queue(maxsize=6) for _ in self.ps]
+        self._ws = []
+        for p, q in zip(self.ps, self._qs):
+            t = threading.Thread(target=self._wr, args=(p, q), daemon=True)
+            t.start()
+            self._ws.append(t)
         self._timer = threading.Timer(timeout, self._killall)
         self._timer.start()
+
+    def _wr(self, p, q):
+        dead = False
+        while True:
+            b = q.get()
+            if b is None:
+                break
+            if dead:
+                continue
+            try:
+                p.stdin.write(b)
+            except (BrokenPipeError, ValueError, OSError):
+                dead = True
+        try:
+            p.stdin.close()
+        except Exception:
+            pass
 
     def _killall(self):
         for p in self.ps:
             p.kill()
 
     def _rd(self, stream):
-        for line in stream:
-            with self._lock:
-                self.out.append(line.rstrip("\n"))
+        data = stream.read()
+        lines = data.decode("utf-8", "replace").splitlines()
+        with self._lock:
+            self.out.extend(lines)
 
     def _rde(self, stream):
-        for line in stream:
-            with self._lock:
-                if len(self.err) < 2000:
-                    self.err.append(line.rstrip("\n"))
+        data = stream.read()
+        with self._lock:
+            self.err.extend(data.decode("utf-8", "replace").splitlines()[:2000])
+
+    def feed_chunk(self, block):
+        """block: bytes, whole lines."""
+        cnt = block.count(b"\n")
+        if len(self.samples) < 3 or (self.k % 50 == 0 and len(self.samples) < 8):
+            self.samples.append(block[:block.find(b"\n") + 1].decode("utf-8", "replace"))
+        self.n += cnt
+        # cut into pieces of <= 256 KiB at line ends and hand them to the writers round-robin
+        i = 0
+        n = len(block)
+        while i < n:
+            j = n if n - i <= (1 << 18) else block.rfind(b"\n", i, i + (1 << 18)) + 1
+            if j <= i:
+                j = block.find(b"\n", i) + 1 or n
+            self._qs[self.k % len(self._qs)].put(block[i:j])
+            self.k += 1
+            i = j
 
     def feed(self, line):
-        p = self.ps[self.n % len(self.ps)]
-        self.n += 1
-        if len(self.samples) < 3 or (self.n % 9973 == 0 and len(self.samples) < 8):
-            self.samples.append(line)
-        try:
-            p.stdin.write(line)
-        except (BrokenPipeError, ValueError):
-            pass
+        self.feed_chunk(line.encode("utf-8") if isinstance(line, str) else line)
 
     def close(self):
         rc = 0
-        for p in self.ps:
-            try:
-                p.stdin.close()
-            except Exception:
-                pass
+        for q in self._qs:
+            q.put(None)
+        for t in self._ws:
+            t.join()
+        for t in self._ts:
+            t.join()
         for p in self.ps:
             p.wait()
             rc = rc or p.returncode
         self._timer.cancel()
-        for t in self._ts:
-            t.join(10)
         return rc
 
 
